@@ -47,8 +47,12 @@ def perturb_heap(n: int) -> None:
     _KEEP.extend(junk[1::3][: n // 5])
 
 
+_ADDRESS = re.compile(r"0x[0-9a-fA-F]+")
+
+
 def _err(exc: BaseException) -> str:
-    return f"ERR:{type(exc).__name__}:{str(exc)[:160]}"
+    # object addresses in messages are not results
+    return f"ERR:{type(exc).__name__}:{_ADDRESS.sub('0x?', str(exc))[:160]}"
 
 
 # ----------------------------------------------------------------------------- hit level stages
@@ -260,7 +264,52 @@ def stage_pipeline(case: Dict[str, Any]) -> Dict[str, str]:
     return out
 
 
-STAGES = {"refine": stage_refine, "hmmer": stage_hmmer, "filter": stage_filter, "pipeline": stage_pipeline}
+# ----------------------------------------------------------------------------- regions, directly
+
+PRODS = ["p_a", "p_b", "p_c", "p_d"]
+
+
+def build_region(case: Dict[str, Any], order: List[int], between: Any = None) -> Any:
+    """{"L":n,"circ":bool,"protos":[[start,end,product,core offset],…],"groups":[[index,…],…]}:
+       a Region of candidate clusters over the listed protoclusters, created in the given order"""
+    from antismash.common.secmet.features import Region
+    from antismash.common.secmet.features.candidate_cluster import CandidateClusterKind
+    from antismash.common.secmet.test.helpers import DummyCandidateCluster, DummyProtocluster
+    length = case["L"]
+    objs: Dict[int, Any] = {}
+    for i in order:
+        if between:
+            between()
+        start, end, prod, off = case["protos"][i]
+        if start > end:
+            core = ((start + 5 + off) % length, max(1, end - 2))
+            if core[0] <= core[1]:
+                core = (0, max(1, end - 2))
+        else:
+            core = (start + 1 + off, start + 9 + off)
+        objs[i] = DummyProtocluster(start=start, end=end, core_start=core[0], core_end=core[1],
+                                    product=PRODS[prod], record_length=length if case["circ"] else None)
+    cands = []
+    for grp in case["groups"]:
+        kwargs = {"circular_wrap_point": length} if case["circ"] else {}
+        cands.append(DummyCandidateCluster(clusters=[objs[i] for i in grp],
+                                           kind=CandidateClusterKind.NEIGHBOURING, **kwargs))
+    return Region(candidate_clusters=cands), objs
+
+
+def stage_region(case: Dict[str, Any]) -> Dict[str, str]:
+    order = list(range(len(case["protos"])))
+    # the creation order follows the allocation history of this child
+    k = len(_KEEP) % max(1, len(order))
+    order = order[k:] + order[:k]
+    region, objs = build_region(case, order, lambda: perturb_heap(len(_KEEP) % 5 + 1))
+    index = {id(o): i for i, o in objs.items()}
+    return {"unique_protoclusters": json.dumps([[index[id(p)], p.product, str(p.location), str(p.core_location)]
+                                                for p in region.get_unique_protoclusters()])}
+
+
+STAGES = {"refine": stage_refine, "hmmer": stage_hmmer, "filter": stage_filter, "pipeline": stage_pipeline,
+          "region": stage_region}
 
 
 def main() -> None:
@@ -287,7 +336,7 @@ def main() -> None:
             if os.environ.get("C17_TRACE"):
                 out["trace"] = traceback.format_exc()[-1500:]
         real_stdout.write(json.dumps(out) + "\n")
-    real_stdout.flush()
+        real_stdout.flush()
 
 
 if __name__ == "__main__":
